@@ -216,6 +216,27 @@ def h_runs(run1: str, run2: str, lang: str, maxlen: int):
     return check_idempotent(lang, title, 0)
 
 
+def h_plain_colon(lead: str, colon: bool, x: str, y: str, lang: str, defaultns: int):
+    """A remainder that contains a colon whose left side is NOT a namespace name ('2001: A Space Odyssey'): the default
+    namespace applies, and a leading colon forces the main namespace."""
+    assume(len(lead) <= 1 and len(x) <= 1 and len(y) <= 2)
+    assume(in_alphabet(lead, SEP_ALPHABET) and in_alphabet(x, "a1 ") and in_alphabet(y, " _aA1"))
+    lead, x, y = pinned(lead), pinned(x), pinned(y)
+    assume(has_letter(y))
+    left = "1" + x  # starts with a digit: no site has such a namespace name
+    title = lead + (":" if colon else "") + left + ":" + y
+    h = handler(lang)
+    ns, partial, full = h.splitname(title, defaultns)
+    nsid = 0 if colon else defaultns
+    want_rest = ref_rest(left + ":" + y)
+    star = h.siteinfo["namespaces"][str(nsid)]["*"]
+    want_full = (star + ":" if star else "") + want_rest
+    if ns != nsid or partial != want_rest or full != want_full:
+        return {"sig": "spelling-not-canonical", "lang": lang, "title": title, "defaultns": defaultns,
+                "got": [ns, partial, full], "expected": [nsid, want_rest, want_full]}
+    return None
+
+
 def twin_ns(title: str, lang: str):
     """Reachability: a symbolic title does resolve to a non-main namespace."""
     assume(len(title) <= 2)
@@ -249,6 +270,8 @@ def build(tier: str) -> CheckSpec:
                 continue
             cubes.append(Cube(f"free[{lang},ns{d}]<={free_len}", h_free, {"title": str},
                               {"maxlen": free_len, "lang": lang, "defaultns": d, "alphabet": alphabet}, timeout=tmo, per_path_timeout=60, group=f"free-{lang}"))
+            cubes.append(Cube(f"plain-with-colon[{lang},ns{d}]", h_plain_colon, {"lead": str, "colon": bool, "x": str, "y": str},
+                              {"lang": lang, "defaultns": d}, timeout=tmo, per_path_timeout=60, group=f"plain-{lang}"))
             cubes.append(Cube(f"plain[{lang},ns{d}]", h_plain, {"lead": str, "colon": bool, "rest": str},
                               {"lang": lang, "defaultns": d, "restlen": restlen}, timeout=tmo, per_path_timeout=60, group=f"plain-{lang}"))
         cubes.append(Cube(f"runs[{lang}]", h_runs, {"run1": str, "run2": str}, {"lang": lang, "maxlen": 3 if tier == "quick" else 4},
